@@ -6,7 +6,7 @@ VROOT="$(cd "$(dirname "${BASH_SOURCE[0]}")/.." && pwd)"   # the verification ro
 tier="${1:-quick}"; shift
 ids=("$@"); [ ${#ids[@]} -eq 0 ] && ids=($(ls "$VROOT/seeded" | grep -E '^C[0-9]+-'))
 for id in "${ids[@]}"; do
-  d="$VROOT/seeded/$id"; prop="$(jq -r .property "$d/meta.json")"
+  d="$VROOT/seeded/$id"; prop="$(jq -r '.check_with // .property' "$d/meta.json")"   # (check_with: the change belongs to another property's subject, see its meta.json)
   if jq -e .obsolete "$d/meta.json" >/dev/null; then echo "$id: obsolete (see meta.json), skipped"; continue; fi
   alt="$($VROOT/tools/altrepo.sh)"
   git -C "$alt" apply "$d/patch.diff" || { echo "$id: patch does not apply"; continue; }
